@@ -1,6 +1,6 @@
 (* C07 - frequency hopping follows 3GPP TS 45.002 6.2.3 in simulator and firmware. Statements only. *)
 From Coq Require Import ZArith List.
-From OBB Require Import Gen.HoppingTab Model.GsmTime Model.Hopping Proofs.HoppingP.
+From OBB Require Import Gen.HoppingTab Model.GsmTime Model.Hopping Proofs.HoppingP Model.FreqRedef Proofs.FreqRedefP.
 Open Scope Z_scope.
 
 (* both implementations carry the standard's RNTABLE *)
@@ -29,3 +29,54 @@ Theorem c07_py_eq_c : forall hsn maio fn ma, 0 <= hsn < 64 -> 0 <= maio -> (1 <=
                    /\ pick ma (hop_py hsn maio (Z.of_nat (length ma)) fn) = (a :: nil).
 Proof. exact py_eq_c_ma. Qed.
 Print Assumptions c07_py_eq_c.
+
+(* ---- frequency redefinition at "starting time" (firmware prim_freq.c l1s_freq_cmd, Model/FreqRedef.v) ---- *)
+
+(* after the command, for every frame of the hyperframe the firmware tunes to MA[MAI] of the STAGED hopping parameters
+   (any mobile allocation of 1..64 channels), MAI being the standard's *)
+Theorem c07_freq_cmd_hop : forall d hsn maio ma fn, st d = Hop hsn maio ma ->
+  0 <= hsn < 64 -> 0 <= maio -> (1 <= length ma <= 64)%nat -> 0 <= fn < 2715648 ->
+  exists mai a, hop_spec hsn maio (Z.of_nat (length ma)) fn = Some mai /\ 0 <= mai < Z.of_nat (length ma)
+                /\ nth_error ma (Z.to_nat mai) = Some a /\ ded_arfcn (freq_cmd d) fn = a.
+Proof. exact cmd_hop. Qed.
+Print Assumptions c07_freq_cmd_hop.
+
+(* a staged single-ARFCN channel is used as it is *)
+Theorem c07_freq_cmd_fixed : forall d a fn, st d = Fixed a -> ded_arfcn (freq_cmd d) fn = a.
+Proof. exact cmd_fixed. Qed.
+Print Assumptions c07_freq_cmd_fixed.
+
+(* the training sequence follows the staged one *)
+Theorem c07_freq_cmd_tsc : forall d, ded_tsc (freq_cmd d) = st_tsc d.
+Proof. exact cmd_tsc. Qed.
+Print Assumptions c07_freq_cmd_tsc.
+
+(* the command leaves the staged set as it is ... *)
+Theorem c07_freq_cmd_keeps_staged : forall d, st (freq_cmd d) = st d /\ st_tsc (freq_cmd d) = st_tsc d.
+Proof. exact cmd_keeps_staged. Qed.
+Print Assumptions c07_freq_cmd_keeps_staged.
+
+(* ... and is idempotent *)
+Theorem c07_freq_cmd_idem : forall d, freq_cmd (freq_cmd d) = freq_cmd d.
+Proof. exact cmd_idem. Qed.
+Print Assumptions c07_freq_cmd_idem.
+
+(* until the starting time the old channel is used: staging changes neither the ARFCN of any frame nor the training sequence *)
+Theorem c07_stage_keeps_active : forall d s t, act (stage d s t) = act d /\ ded_tsc (stage d s t) = ded_tsc d
+  /\ forall fn, ded_arfcn (stage d s t) fn = ded_arfcn d fn.
+Proof. exact stage_keeps_active. Qed.
+Print Assumptions c07_stage_keeps_active.
+
+(* staging followed by the command activates exactly what was staged *)
+Theorem c07_stage_cmd : forall d s t, act (freq_cmd (stage d s t)) = s /\ ded_tsc (freq_cmd (stage d s t)) = t.
+Proof. exact stage_cmd. Qed.
+Print Assumptions c07_stage_cmd.
+
+(* non-vacuity: old MA of 3, staged MA of 5 channels; frames with MAI 3 and 4 use the new entries 43 and 44 *)
+Theorem c07_freq_redef_example :
+  map (ded_arfcn ex_staged) (0 :: 1 :: 2 :: 3 :: 7 :: 8 :: nil) = 10 :: 11 :: 12 :: 10 :: 11 :: 12 :: nil
+  /\ map (hop_spec 17 2 5) (0 :: 1 :: 2 :: 3 :: 7 :: 8 :: nil) = Some 4 :: Some 3 :: Some 0 :: Some 2 :: Some 3 :: Some 2 :: nil
+  /\ map (ded_arfcn (freq_cmd ex_staged)) (0 :: 1 :: 2 :: 3 :: 7 :: 8 :: nil) = 44 :: 43 :: 40 :: 42 :: 43 :: 42 :: nil
+  /\ ded_tsc ex_staged = 1 /\ ded_tsc (freq_cmd ex_staged) = 5.
+Proof. exact redef_n5. Qed.
+Print Assumptions c07_freq_redef_example.
